@@ -48,6 +48,11 @@ def make_cases(tier, rng):
             add(hash=h, **{"class": cl}, pos=0, file_size=rng.choice([1, 5000]), file_seed=rng.randint(1, 99999), launch="relpath")
             # ... and a relative path with a working directory set for the command (os/exec resolves it there)
             add(hash=h, **{"class": cl}, pos=0, file_size=rng.choice([1, 5000]), file_seed=rng.randint(1, 99999), launch="reldir")
+    # one SecureConfig shared by two clients whose checks overlap (the tampered file's check waits in Sum while the
+    # genuine file's check runs): the tampered file is never launched
+    for h in (["sha256"] if tier == "quick" else list(HLEN)):
+        for _ in range(2 if tier == "quick" else 6):
+            add(hash=h, **{"class": "other"}, pos=0, file_size=rng.choice([1, 5000]), file_seed=rng.randint(1, 99999), history="shared-overlap")
     # histories on one SecureConfig value
     for _ in range(6 if tier == "quick" else 40):
         add(hash=rng.choice(list(HLEN)), **{"class": "exact"}, pos=0, file_size=rng.choice([10, 5000]), file_seed=rng.randint(1, 99999),
